@@ -108,6 +108,16 @@ var c03PoolDef = []c03Cert{
 	{ID: "r1", Names: []string{"a.x", "q.x"}, RSA: true},
 }
 
+// more pool certificates, used by the random blocks only (not part of the enumerated universe):
+// names made of wildcard labels only, an IDN in its A-label form, an upper-case-free 4-label name
+var c03ExtraDef = []c03Cert{
+	{ID: "s1", Names: []string{"*"}},
+	{ID: "s2", Names: []string{"*.*"}},
+	{ID: "s3", Names: []string{"*.*.*", "*.*.*.x"}},
+	{ID: "u1", Names: []string{"xn--bcher-kva.x"}},
+	{ID: "u2", Names: []string{"*.r.x", "q.r.x"}, Expired: true},
+}
+
 // certificates that can sit in storage as managed certificates (almost-full branch)
 var c03StoredDef = []c03Cert{
 	{ID: "La", Names: []string{"a.x"}},
@@ -261,6 +271,19 @@ func newC03Env() (*c03Env, error) {
 			return nil, err
 		}
 		// learn the hash certmagic gives it
+		h, err := cfg.CacheUnmanagedTLSCertificate(context.Background(), c.tls, nil)
+		if err != nil {
+			return nil, err
+		}
+		c.hash = h
+		env.alias[h] = c.ID
+		env.pool[c.ID] = &c
+	}
+	for i := range c03ExtraDef {
+		c := c03ExtraDef[i]
+		if err := c03Make(ca, &c); err != nil {
+			return nil, err
+		}
 		h, err := cfg.CacheUnmanagedTLSCertificate(context.Background(), c.tls, nil)
 		if err != nil {
 			return nil, err
@@ -1157,12 +1180,13 @@ func runC03(tier string, seed int64, outdir string, replay string) error {
 		nCustom = 25000
 	}
 	allLocals := []string{"127.0.0.1", "10.0.0.1", "fe80::1", "10.0.0.1/4", "::1"}
+	fullPool := append(append([]c03Cert{}, c03PoolDef...), c03ExtraDef...)
 	for i := 0; i < nCustom; i++ {
-		perm := r.Perm(len(c03PoolDef))
+		perm := r.Perm(len(fullPool))
 		n := r.Intn(5)
 		ids := make([]string, n)
 		for k := 0; k < n; k++ {
-			ids[k] = c03PoolDef[perm[k]].ID
+			ids[k] = fullPool[perm[k]].ID
 		}
 		cf := c03Configs[r.Intn(len(c03Configs))]
 		in := c03In{Certs: ids, Cap: []int{0, 0, n, n + 1}[r.Intn(4)], Default: cf[0], Fallback: cf[1], SNI: c03Queries[r.Intn(len(c03Queries))],
@@ -1185,11 +1209,11 @@ func runC03(tier string, seed int64, outdir string, replay string) error {
 		nBig = 6000
 	}
 	for i := 0; i < nBig; i++ {
-		perm := r.Perm(len(c03PoolDef))
-		n := 4 + r.Intn(len(c03PoolDef)-3)
+		perm := r.Perm(len(fullPool))
+		n := 4 + r.Intn(len(fullPool)-3)
 		ids := make([]string, n)
 		for k := 0; k < n; k++ {
-			ids[k] = c03PoolDef[perm[k]].ID
+			ids[k] = fullPool[perm[k]].ID
 		}
 		capacity := []int{0, n, n + 1, n + 2, n + 5}[r.Intn(5)]
 		cf := c03Configs[r.Intn(len(c03Configs))]
